@@ -110,6 +110,7 @@ type FnExec struct {
 	strConst map[string]string
 	hashStated map[int]bool // type tags for which (hashable tag) has been stated
 	atcallHit map[int]bool
+	inTypeInv bool
 	callOrd   map[ssa.Instruction]int
 	outside  []string // reasons the function leaves the supported subset
 	notes    []string
@@ -827,6 +828,10 @@ func (fx *FnExec) loaded(t types.Type, term string) string {
 				fx.assume("(distinct (s.arr " + n + ") " + po.ref + ")")
 			}
 		}
+	}
+	// object invariant of what was read (assumed only for objects older than this activation)
+	if fx.typeInvOf(t) != nil {
+		fx.assumeTypeInv(t, n, fx.cur.heap)
 	}
 	// a value read from an untouched initial heap array, out of an object that itself existed
 	// before this activation, existed before this activation
